@@ -274,4 +274,92 @@ theorem C20_length_order_independent (a b : Info) (h1 : a.ids.Perm b.ids) (h2 : 
 example : (verImpl ⟨[⟨[1], [2], [], [3, 4]⟩], [[5, 6]], [⟨[⟨formTypeVar, [[7]]⟩, ⟨[8], [[9], []]⟩]⟩, ⟨[]⟩]⟩).length = 19 := by
   rw [C20_length]; decide
 
+/-! ### Calls on a value the caller keeps (round E)
+
+"Depends only on the sets": a call must not change what the caller (and every later or
+concurrent call) sees.  `Info.after p` is the caller's value after a call of an implementation
+that orders the levels named by `p` in place. -/
+
+theorem C20_field_after_pure (f : Field) : f.after InPlace.pure = f := by
+  simp [Field.after, InPlace.pure]
+
+theorem C20_form_after_pure (F : Form) : F.after InPlace.pure = F := by
+  have : (fun f : Field => f.after InPlace.pure) = id := funext C20_field_after_pure
+  cases F; simp [Form.after, this]; simp [InPlace.pure]
+
+/-- an implementation that copies every level leaves the caller's value as it was -/
+theorem C20_after_pure (i : Info) : i.after InPlace.pure = i := by
+  have : (fun F : Form => F.after InPlace.pure) = id := funext C20_form_after_pure
+  cases i; simp [Info.after, this]; simp [InPlace.pure]
+
+/-- **The code is a pure function of the value**: any number of successive calls on one value
+hash the same string and leave the value as it was (the fact `argumentWrites`, probed on the
+real code, says that `implInPlace` is what the code does). -/
+theorem C20_calls_pure (n : Nat) (i : Info) :
+    calls implInPlace n i = List.replicate n (verImpl i) ∧ afterCalls implInPlace n i = i := by
+  induction n with
+  | zero => simp [calls, afterCalls]
+  | succ n ih =>
+    simp only [calls, afterCalls, implInPlace, C20_after_pure, List.replicate_succ]
+    exact ⟨by rw [← implInPlace, ih.1], by rw [← implInPlace, ih.2]⟩
+
+theorem mergeSort_idem {α} {le : α → α → Bool}
+    (trans : ∀ a b c, le a b = true → le b c = true → le a c = true)
+    (total : ∀ a b, (le a b || le b a) = true) (l : List α) :
+    (l.mergeSort le).mergeSort le = l.mergeSort le :=
+  List.mergeSort_of_pairwise (List.pairwise_mergeSort trans total l)
+
+/-- Ordering the identities, the features or the list of forms where they are does not change
+what a later call hashes (it is still visible to the caller and a data race between concurrent
+calls, which is why the fact demands that it does not happen) … -/
+theorem C20_inplace_top_levels_harmless (p : InPlace) (hf : p.fields = false)
+    (hv : p.values = false) (i : Info) : verImpl (i.after p) = verImpl i := by
+  have hfield : (fun f : Field => f.after p) = id := by
+    funext f; simp [Field.after, hv]
+  have hform : (fun F : Form => F.after p) = id := by
+    funext F; cases F; simp [Form.after, hf, hfield]
+  cases i with
+  | mk ids feats forms =>
+    simp only [Info.after, hform, List.map_id, verImpl, sortStrings]
+    congr 1
+    · congr 1
+      · cases p.ids <;> simp [mergeSort_idem idLe_trans idLe_total]
+      · cases p.feats <;> simp [mergeSort_idem lexLe_trans lexLe_total]
+    · cases p.forms <;> simp [mergeSort_idem formLe_trans formLe_total]
+
+theorem C20_inplace_top_levels_calls (p : InPlace) (hf : p.fields = false) (hv : p.values = false)
+    (n : Nat) (i : Info) : calls p n i = List.replicate n (verImpl i) := by
+  induction n generalizing i with
+  | zero => simp [calls]
+  | succ n ih => simp [calls, ih, C20_inplace_top_levels_harmless p hf hv, List.replicate_succ]
+
+/-- … but ordering the *values* of the fields where they are does: the first value of a
+`FORM_TYPE` field is the form's type.  A form whose `FORM_TYPE` carries `b, a` is hashed as
+`b<` by the first call and as `a<` by every later one (the class of the seeded change
+"sort.Strings(f.Raw) inside ForFields"). -/
+theorem C20_inplace_values_breaks_repeat :
+    ∃ i : Info, verImpl (i.after ⟨false, false, false, false, true⟩) ≠ verImpl i := by
+  refine ⟨⟨[], [], [⟨[⟨formTypeVar, [[0x62], [0x61]]⟩]⟩]⟩, ?_⟩
+  simp [Info.after, Form.after, Field.after, sortStrings, mergeSort_pair, verImpl, renderForm,
+    Form.formType, Form.dataFields, formTypeVar, lexLe, lt]
+
+/-- each probe value of `writeProbes` is changed by an in-place sort of its level -/
+theorem C20_write_probes_discriminate :
+    writeTable ⟨true, false, false, false, false⟩ = [true, false, false, false, false, false] ∧
+    writeTable ⟨false, true, false, false, false⟩ = [false, true, false, false, false, false] ∧
+    writeTable ⟨false, false, true, false, false⟩ = [false, false, true, false, false, false] ∧
+    writeTable ⟨false, false, false, true, false⟩ = [false, false, false, true, false, false] ∧
+    writeTable ⟨false, false, false, false, true⟩ = [false, false, false, false, true, true] := by
+  simp [writeTable, writeProbes, Info.after, Form.after, Field.after, sortStrings, mergeSort_pair,
+    idLe, idKey, identityKeys, IdSel.get, keysLe, formLe, fieldLe, Form.formType, formTypeVar, lexLe]
+
+theorem C20_write_table_impl : writeTable implInPlace = [false, false, false, false, false, false] := by
+  simp [writeTable, implInPlace, C20_after_pure, writeProbes]
+
+/-- regenerated fact (probe): the real `Hash`, run on the six values of `writeProbes`, leaves
+every one of them as it was - the code orders no level of the caller's value in place -/
+theorem C20_gen_argument_untouched :
+    Generated.C20.argumentWrites = some (writeTable implInPlace) := by
+  rw [C20_write_table_impl]; decide
+
 end XmppModel.Props.C20
